@@ -1,4 +1,572 @@
 /- Helper lemmas about RV.Model.Wire used by RV.Props.C01 and RV.Props.C09. -/
 import RV.Model.Wire
 namespace RV
+
+/-! ### Del / Set loops -/
+
+theorem delLoop_append (k : Int) (post pre : Attrs) :
+    delLoop k (pre ++ post) pre.length = pre ++ post.filter (fun a => a.typ ≠ k) := by
+  induction post generalizing pre with
+  | nil => unfold delLoop; simp
+  | cons a post ih =>
+    unfold delLoop
+    have h : pre.length < (pre ++ a :: post).length := by simp
+    rw [dif_pos h]
+    have hget : (pre ++ a :: post)[pre.length] = a := by simp
+    rw [hget]
+    by_cases hk : a.typ = k
+    · rw [if_pos hk]
+      have : (pre ++ a :: post).eraseIdx pre.length = pre ++ post := by
+        simp [List.eraseIdx_append_of_length_le]
+      rw [this, ih]; simp [hk]
+    · rw [if_neg hk]
+      have := ih (pre ++ [a])
+      simp at this
+      simp [this, hk]
+
+theorem del_eq_filter (as : Attrs) (k : Int) : as.del k = as.filter (fun a => a.typ ≠ k) := by
+  have := delLoop_append k as []
+  simpa [Attrs.del] using this
+
+theorem filter_ne_idem (as : Attrs) (k : Int) :
+    (as.filter (fun a => a.typ ≠ k)).filter (fun a => a.typ ≠ k) = as.filter (fun a => a.typ ≠ k) := by
+  rw [List.filter_filter]; simp only [Bool.and_self]
+
+theorem setLoop_append (k : Int) (v : Bytes) (post pre : Attrs) (found : Bool) :
+    setLoop k v (pre ++ post) pre.length found =
+      if found then (pre ++ post.filter (fun a => a.typ ≠ k), true)
+      else if post.any (fun a => a.typ = k) then (pre ++ Spec.setAux k v post, true)
+      else (pre ++ post, false) := by
+  induction post generalizing pre found with
+  | nil => unfold setLoop; cases found <;> simp
+  | cons a post ih =>
+    unfold setLoop
+    have h : pre.length < (pre ++ a :: post).length := by simp
+    rw [dif_pos h]
+    have hget : (pre ++ a :: post)[pre.length] = a := by simp
+    rw [hget]
+    by_cases hk : a.typ = k
+    · rw [if_pos hk]
+      cases found with
+      | true =>
+        have : (pre ++ a :: post).eraseIdx pre.length = pre ++ post := by
+          simp [List.eraseIdx_append_of_length_le]
+        simp only [if_true, this, ih]; simp [hk]
+      | false =>
+        have hs : List.set (pre ++ a :: post) pre.length ⟨k, v⟩ = (pre ++ [⟨k, v⟩]) ++ post := by
+          simp [List.set_append_right]
+        have := ih (pre ++ [⟨k, v⟩]) true
+        simp at this
+        simp [hs, this, hk, Spec.setAux]
+    · rw [if_neg hk]
+      have := ih (pre ++ [a]) found
+      simp at this
+      cases found <;> simp_all [Spec.setAux]
+
+theorem set_eq_spec (as : Attrs) (k : Int) (v : Bytes) : as.set k v = Spec.set as k v := by
+  have := setLoop_append k v as [] false
+  simp only [List.nil_append, List.length_nil, Bool.false_eq_true, if_false] at this
+  unfold Attrs.set Spec.set
+  rw [this]
+  by_cases h : as.any (fun a => a.typ = k) = true
+  · simp only [h, if_true]
+  · simp only [h, Attrs.add]; simp
+
+theorem lookup_eq_find (as : Attrs) (k : Int) :
+    as.lookup k = (as.find? (fun a => a.typ = k)).map (·.val) := by
+  induction as with
+  | nil => rfl
+  | cons a as ih =>
+    by_cases h : a.typ = k <;> simp [Attrs.lookup, List.find?, h, ih]
+
+theorem setAux_filter_eq (k : Int) (v : Bytes) (as : Attrs) (h : as.any (fun a => a.typ = k) = true) :
+    (Spec.setAux k v as).filter (fun a => a.typ = k) = [⟨k, v⟩] := by
+  induction as with
+  | nil => simp at h
+  | cons a as ih =>
+    by_cases hk : a.typ = k
+    · simp [Spec.setAux, hk, List.filter_filter]
+    · simp [hk] at h
+      simp [Spec.setAux, hk, ih, h]
+
+theorem setAux_filter_ne (k : Int) (v : Bytes) (as : Attrs) :
+    (Spec.setAux k v as).filter (fun a => a.typ ≠ k) = as.filter (fun a => a.typ ≠ k) := by
+  induction as with
+  | nil => rfl
+  | cons a as ih =>
+    by_cases hk : a.typ = k
+    · simp [Spec.setAux, hk, List.filter_filter]
+    · simp at ih
+      simp [Spec.setAux, hk, ih]
+
+theorem specSet_filter_eq (as : Attrs) (k : Int) (v : Bytes) :
+    (Spec.set as k v).filter (fun a => a.typ = k) = [⟨k, v⟩] := by
+  unfold Spec.set
+  by_cases h : as.any (fun a => a.typ = k) = true
+  · rw [if_pos h]; exact setAux_filter_eq k v as h
+  · rw [if_neg h]
+    simp at h
+    simp [List.filter_append]
+    intro a ha; exact h a ha
+
+theorem specSet_filter_ne (as : Attrs) (k : Int) (v : Bytes) :
+    (Spec.set as k v).filter (fun a => a.typ ≠ k) = as.filter (fun a => a.typ ≠ k) := by
+  unfold Spec.set
+  by_cases h : as.any (fun a => a.typ = k) = true
+  · rw [if_pos h]; exact setAux_filter_ne k v as
+  · rw [if_neg h]; simp [List.filter_append]
+
+theorem lookup_of_filter (as : Attrs) (k : Int) :
+    as.lookup k = ((as.filter (fun a => a.typ = k)).head?).map (·.val) := by
+  induction as with
+  | nil => rfl
+  | cons a as ih =>
+    by_cases h : a.typ = k <;> simp [Attrs.lookup, h, ih]
+
+/-! ### Byte facts -/
+
+theorem u8_lt (x : UInt8) : x.toNat < 256 := x.toNat_lt
+
+theorem u8_ofNat_toNat_lt {n : Nat} (h : n < 256) : (UInt8.ofNat n).toNat = n :=
+  UInt8.toNat_ofNat_of_lt' h
+
+theorem be16_div (hi lo : UInt8) : UInt8.ofNat (be16 hi lo / 256) = hi := by
+  have := u8_lt lo
+  have h : be16 hi lo / 256 = hi.toNat := by unfold be16; omega
+  rw [h, UInt8.ofNat_toNat]
+
+theorem be16_mod (hi lo : UInt8) : UInt8.ofNat (be16 hi lo % 256) = lo := by
+  have := u8_lt lo
+  have h : be16 hi lo % 256 = lo.toNat := by unfold be16; omega
+  rw [h, UInt8.ofNat_toNat]
+
+theorem be16_ofNat {n : Nat} (h : n < 65536) :
+    be16 (UInt8.ofNat (n / 256)) (UInt8.ofNat (n % 256)) = n := by
+  unfold be16
+  rw [u8_ofNat_toNat_lt (by omega), u8_ofNat_toNat_lt (by omega)]
+  omega
+
+theorem codeByte_toNat (x : UInt8) : codeByte (x.toNat : Int) = x := by
+  have := u8_lt x
+  have h : ((x.toNat : Int) % 256).toNat = x.toNat := by omega
+  unfold codeByte
+  rw [h, UInt8.ofNat_toNat]
+
+theorem codeByte_cast {c : Int} (h0 : 0 ≤ c) (h1 : c ≤ 255) : ((codeByte c).toNat : Int) = c := by
+  unfold codeByte
+  rw [u8_ofNat_toNat_lt (by omega)]
+  omega
+
+/-! ### Encoder -/
+
+/-- every valid-type value fits the one-octet length -/
+def okLens (as : Attrs) : Bool :=
+  as.all (fun a => !validType a || decide (a.val.length ≤ 253))
+
+theorem okLens_iff (as : Attrs) :
+    okLens as = true ↔ ∀ a ∈ as, validType a = true → a.val.length ≤ 253 := by
+  unfold okLens
+  simp only [List.all_eq_true, Bool.or_eq_true, Bool.not_eq_true', decide_eq_true_eq]
+  constructor
+  · intro h a ha hv
+    cases h a ha with
+    | inl h => rw [hv] at h; cases h
+    | inr h => exact h
+  · intro h a ha
+    cases hv : validType a with
+    | false => exact Or.inl rfl
+    | true => exact Or.inr (h a ha hv)
+
+@[simp] theorem okLens_nil : okLens [] = true := rfl
+
+theorem okLens_cons (a : AVP) (as : Attrs) :
+    okLens (a :: as) = ((!validType a || decide (a.val.length ≤ 253)) && okLens as) := by
+  simp [okLens]
+
+theorem avpBytes_length (a : AVP) : (avpBytes a).length = 2 + a.val.length := by
+  simp [avpBytes]; omega
+
+theorem encodeBytes_eq_flatten (as : Attrs) :
+    encodeBytes as = ((as.filter validType).map avpBytes).flatten := by
+  induction as with
+  | nil => rfl
+  | cons a as ih =>
+    cases h : validType a <;> simp [encodeBytes, h, ih]
+
+theorem encodeBytes_length (as : Attrs) :
+    (encodeBytes as).length = ((as.filter validType).map (fun a => 2 + a.val.length)).sum := by
+  induction as with
+  | nil => rfl
+  | cons a as ih =>
+    cases h : validType a <;> simp [encodeBytes, h, ih, avpBytes_length]
+
+theorem encodedLenFrom_eq (as : Attrs) (m : Nat) :
+    encodedLenFrom m as =
+      if okLens as then .ok (m + (encodeBytes as).length) else .err := by
+  induction as generalizing m with
+  | nil => simp [encodedLenFrom, encodeBytes]
+  | cons a as ih =>
+    unfold encodedLenFrom
+    cases hv : validType a with
+    | false => simp [ih, okLens_cons, hv, encodeBytes]
+    | true =>
+      by_cases hl : a.val.length ≤ 253
+      · have : ¬ a.val.length > maxAttrValue := by simp only [maxAttrValue]; omega
+        simp [ih, okLens_cons, hv, encodeBytes, this, hl, avpBytes_length]
+        cases okLens as <;> simp; omega
+      · have : a.val.length > maxAttrValue := by simp only [maxAttrValue]; omega
+        simp [okLens_cons, hv, this, hl]
+
+theorem encodedLen_eq (as : Attrs) :
+    encodedLen as = if okLens as then .ok (encodeBytes as).length else .err := by
+  simp [encodedLen, encodedLenFrom_eq]
+
+theorem encodeTo_exact (as : Attrs) (buf : Bytes) (hok : okLens as = true)
+    (hlen : buf.length = (encodeBytes as).length) : encodeTo as buf = .ok (encodeBytes as) := by
+  induction as generalizing buf with
+  | nil =>
+    simp [encodeBytes] at hlen
+    simp [encodeTo, encodeBytes, hlen]
+  | cons a as ih =>
+    rw [okLens_cons] at hok
+    simp only [Bool.and_eq_true] at hok
+    obtain ⟨h1, h2⟩ := hok
+    unfold encodeTo
+    cases hv : validType a with
+    | false =>
+      simp only [encodeBytes, hv] at hlen ⊢
+      simpa using ih buf h2 hlen
+    | true =>
+      simp [hv] at h1
+      have hle : ¬ a.val.length > maxAttrValue := by simp only [maxAttrValue]; omega
+      simp only [encodeBytes, hv, if_true, List.length_append, avpBytes_length] at hlen ⊢
+      have hd : (buf.drop (2 + a.val.length)).length = (encodeBytes as).length := by
+        simp; omega
+      have hlt : ¬ buf.length < 2 + a.val.length := by omega
+      simp [hle, hlt, ih _ h2 hd]
+
+theorem encodeTo_of_encodedLen (as : Attrs) (n : Nat) (h : encodedLen as = .ok n) :
+    encodeTo as (zeros n) = .ok (encodeBytes as) ∧ (encodeBytes as).length = n := by
+  rw [encodedLen_eq] at h
+  cases hok : okLens as with
+  | false => simp [hok] at h
+  | true =>
+    simp [hok] at h
+    exact ⟨encodeTo_exact as _ hok (by simp [zeros, h]), h⟩
+
+/-! ### ParseAttributes -/
+
+theorem parseAttrs_ne_fault (b : Bytes) : parseAttrs b ≠ .fault := by
+  fun_induction parseAttrs b <;> simp_all
+
+theorem parseAttrs_cons_ok (t l : UInt8) (v rest : Bytes) (as : Attrs)
+    (h2 : 2 ≤ l.toNat) (hv : v.length = l.toNat - 2) (hr : parseAttrs rest = .ok as) :
+    parseAttrs (t :: l :: (v ++ rest)) = .ok (⟨t.toNat, v⟩ :: as) := by
+  unfold parseAttrs
+  have hg : ¬ (l.toNat < minAttrLength ∨ l.toNat - 2 > (v ++ rest).length) := by
+    simp only [minAttrLength, List.length_append]; omega
+  rw [if_neg hg, ← hv, List.drop_left, List.take_left, hr]
+
+theorem parseAttrs_of_wf (b : Bytes) (h : WellFormedTLV b) : ∃ as, parseAttrs b = .ok as := by
+  induction h with
+  | nil => exact ⟨[], by simp [parseAttrs]⟩
+  | cons t l v rest h2 hv _ ih =>
+    obtain ⟨as, has⟩ := ih
+    exact ⟨_, parseAttrs_cons_ok t l v rest as h2 hv has⟩
+
+theorem wf_of_parseAttrs (b : Bytes) (as : Attrs) (h : parseAttrs b = .ok as) : WellFormedTLV b := by
+  fun_induction parseAttrs b generalizing as with
+  | case1 => exact .nil
+  | case2 => simp at h
+  | case3 t l rest hg =>  simp at h
+  | case4 t l rest hg as' has ih =>
+    have hg' : 2 ≤ l.toNat ∧ l.toNat - 2 ≤ rest.length := by
+      simp only [minAttrLength] at hg; omega
+    have := WellFormedTLV.cons t l (rest.take (l.toNat - 2)) (rest.drop (l.toNat - 2)) hg'.1
+      (by simp; omega) (ih as' has)
+    rwa [List.take_append_drop] at this
+  | case5 => simp_all
+  | case6 => simp_all
+
+theorem parseAttrs_ok_iff_wf (b : Bytes) : (∃ as, parseAttrs b = .ok as) ↔ WellFormedTLV b :=
+  ⟨fun ⟨as, h⟩ => wf_of_parseAttrs b as h, parseAttrs_of_wf b⟩
+
+theorem validType_nat (t : UInt8) (v : Bytes) : validType ⟨(t.toNat : Int), v⟩ = true := by
+  have := u8_lt t
+  simp [validType]; omega
+
+theorem encode_parseAttrs (b : Bytes) (as : Attrs) (h : parseAttrs b = .ok as) :
+    encodeBytes as = b ∧ okLens as = true := by
+  fun_induction parseAttrs b generalizing as with
+  | case1 => simp at h; subst h; simp [encodeBytes]
+  | case2 => simp at h
+  | case3 t l rest hg => simp at h
+  | case4 t l rest hg as' has ih =>
+    simp at h; subst h
+    have hl := u8_lt l
+    have hg' : 2 ≤ l.toNat ∧ l.toNat - 2 ≤ rest.length := by
+      simp only [minAttrLength] at hg; omega
+    obtain ⟨ih1, ih2⟩ := ih as' has
+    have hlen : (rest.take (l.toNat - 2)).length = l.toNat - 2 := by simp; omega
+    constructor
+    · have h2 : 2 + (l.toNat - 2) = l.toNat := by omega
+      simp only [encodeBytes, validType_nat, if_true, avpBytes, hlen, h2, ih1,
+        Int.toNat_natCast, UInt8.ofNat_toNat, List.cons_append, List.take_append_drop]
+    · rw [okLens_cons, ih2, hlen]
+      simp; omega
+  | case5 => simp_all
+  | case6 => simp_all
+
+theorem parseAttrs_encodeBytes (as : Attrs) (hok : okLens as = true) :
+    parseAttrs (encodeBytes as) = .ok (as.filter validType) := by
+  induction as with
+  | nil => simp [encodeBytes, parseAttrs]
+  | cons a as ih =>
+    rw [okLens_cons] at hok
+    simp only [Bool.and_eq_true] at hok
+    obtain ⟨h1, h2⟩ := hok
+    cases hv : validType a with
+    | false => simp [encodeBytes, hv, ih h2]
+    | true =>
+      simp [hv] at h1
+      have hvt := hv
+      simp [validType] at hvt
+      have ht : (UInt8.ofNat a.typ.toNat).toNat = a.typ.toNat := u8_ofNat_toNat_lt (by omega)
+      have hl : (UInt8.ofNat (2 + a.val.length)).toNat = 2 + a.val.length :=
+        u8_ofNat_toNat_lt (by omega)
+      have := parseAttrs_cons_ok (UInt8.ofNat a.typ.toNat) (UInt8.ofNat (2 + a.val.length))
+        a.val (encodeBytes as) _ (by omega) (by omega) (ih h2)
+      simp only [encodeBytes, hv, if_true, avpBytes, List.cons_append, this, List.filter_cons]
+      have ha : (⟨((UInt8.ofNat a.typ.toNat).toNat : Int), a.val⟩ : AVP) = a := by
+        rw [ht]; cases a; simp at hvt ⊢; omega
+      rw [ha]
+
+/-! ### Parse / MarshalBinary -/
+
+theorem marshal_eq (p : Packet) :
+    marshal p =
+      if okLens p.attrs = true ∧ 20 + (encodeBytes p.attrs).length ≤ 4096 then
+        .ok (header p.code p.id (20 + (encodeBytes p.attrs).length) p.auth ++ encodeBytes p.attrs)
+      else .err := by
+  unfold marshal
+  rw [encodedLen_eq]
+  cases hok : okLens p.attrs with
+  | false => simp
+  | true =>
+    simp only [if_true, true_and]
+    by_cases hs : 20 + (encodeBytes p.attrs).length ≤ 4096
+    · have : ¬ 20 + (encodeBytes p.attrs).length > maxPacketLength := by
+        simp only [maxPacketLength]; omega
+      rw [if_neg this, if_pos hs, encodeTo_exact _ _ hok (by simp [zeros])]
+    · have : 20 + (encodeBytes p.attrs).length > maxPacketLength := by
+        simp only [maxPacketLength]; omega
+      rw [if_pos this, if_neg hs]
+
+theorem parse_ok_iff (b s : Bytes) (p : Packet) :
+    parse b s = .ok p ↔
+      20 ≤ b.length ∧ 20 ≤ lengthField b ∧ lengthField b ≤ 4096 ∧ lengthField b ≤ b.length ∧
+      ∃ as, parseAttrs ((b.take (lengthField b)).drop 20) = .ok as ∧
+        p = ⟨(b.getD 0 0).toNat, b.getD 1 0, (b.drop 4).take 16, s, as⟩ := by
+  unfold parse
+  simp only [minPacketLength, maxPacketLength]
+  by_cases h1 : b.length < 20
+  · rw [if_pos h1]
+    constructor
+    · intro h; cases h
+    · intro h; omega
+  · rw [if_neg h1]
+    by_cases h2 : lengthField b < 20 ∨ lengthField b > 4096 ∨ b.length < lengthField b
+    · rw [if_pos h2]
+      constructor
+      · intro h; cases h
+      · intro h; omega
+    · rw [if_neg h2]
+      cases hp : parseAttrs ((b.take (lengthField b)).drop 20) with
+      | ok as =>
+        constructor
+        · intro h
+          simp only [Res.ok.injEq] at h
+          exact ⟨by omega, by omega, by omega, by omega, as, rfl, h.symm⟩
+        · rintro ⟨_, _, _, _, as', h, rfl⟩
+          cases h; rfl
+      | err =>
+        constructor
+        · intro h; cases h
+        · rintro ⟨_, _, _, _, as', h, _⟩; cases h
+      | fault =>
+        constructor
+        · intro h; cases h
+        · rintro ⟨_, _, _, _, as', h, _⟩; cases h
+
+theorem parse_ne_fault (b s : Bytes) : parse b s ≠ .fault := by
+  unfold parse
+  have := parseAttrs_ne_fault ((b.take (lengthField b)).drop 20)
+  split
+  · simp
+  · simp only []
+    split
+    · simp
+    · split <;> simp_all
+
+theorem take4_eq (b : Bytes) (h : 4 ≤ b.length) :
+    b.take 4 = [b.getD 0 0, b.getD 1 0, b.getD 2 0, b.getD 3 0] := by
+  match b, h with
+  | a :: b :: c :: d :: rest, _ => simp
+
+theorem header_length (c : Int) (i : UInt8) (n : Nat) (auth : Bytes) :
+    (header c i n auth).length = 4 + auth.length := by
+  simp [header]; omega
+
+theorem take20_eq_header (b : Bytes) (h : 20 ≤ b.length) :
+    b.take 20 = header ((b.getD 0 0).toNat : Int) (b.getD 1 0) (lengthField b) ((b.drop 4).take 16) := by
+  have : b.take 20 = b.take 4 ++ (b.drop 4).take 16 := List.take_add (i := 4) (j := 16)
+  rw [this, take4_eq b (by omega)]
+  simp only [header, lengthField, codeByte_toNat, be16_div, be16_mod]
+
+theorem lengthField_append (b pad : Bytes) (h : 4 ≤ b.length) :
+    lengthField (b ++ pad) = lengthField b := by
+  match b, h with
+  | a :: b :: c :: d :: rest, _ => simp [lengthField]
+
+theorem lengthField_take (b : Bytes) (n : Nat) (h : 4 ≤ b.length) (hn : 4 ≤ n) :
+    lengthField (b.take n) = lengthField b := by
+  match b, n, h, hn with
+  | a :: b :: c :: d :: rest, n + 4, _, _ => simp [lengthField]
+
+theorem lengthField_header (c : Int) (i : UInt8) (n : Nat) (auth rest : Bytes) (h : n < 65536) :
+    lengthField (header c i n auth ++ rest) = n := by
+  simp [lengthField, header, be16_ofNat h]
+
+theorem getD_append_left (b pad : Bytes) (i : Nat) (h : i < b.length) :
+    (b ++ pad).getD i 0 = b.getD i 0 := by
+  simp [List.getD_eq_getElem?_getD, List.getElem?_append_left h]
+
+theorem getD_take (b : Bytes) (i n : Nat) (h : i < n) : (b.take n).getD i 0 = b.getD i 0 := by
+  simp [List.getD_eq_getElem?_getD, h]
+
+theorem auth_append (b pad : Bytes) (h : 20 ≤ b.length) :
+    ((b ++ pad).drop 4).take 16 = (b.drop 4).take 16 := by
+  rw [List.drop_append_of_le_length (by omega), List.take_append_of_le_length (by simp; omega)]
+
+theorem auth_take (b : Bytes) (n : Nat) (h : 20 ≤ n) :
+    ((b.take n).drop 4).take 16 = (b.drop 4).take 16 := by
+  rw [List.drop_take, List.take_take, Nat.min_eq_left (by omega)]
+
+theorem marshal_of_parse (b s : Bytes) (p : Packet) (h : parse b s = .ok p) :
+    marshal p = .ok (b.take (lengthField b)) := by
+  obtain ⟨h1, h2, h3, h4, as, hp, rfl⟩ := (parse_ok_iff b s p).1 h
+  obtain ⟨he, hok⟩ := encode_parseAttrs _ _ hp
+  rw [marshal_eq]
+  simp only [he, hok]
+  have hlen : 20 + ((b.take (lengthField b)).drop 20).length = lengthField b := by
+    simp; omega
+  rw [hlen, if_pos ⟨trivial, h3⟩, ← take20_eq_header b h1]
+  have : b.take 20 = (b.take (lengthField b)).take 20 := by
+    rw [List.take_take, Nat.min_eq_left h2]
+  rw [this, List.take_append_drop]
+
+theorem parse_padding (b pad s : Bytes) (p : Packet) (h : parse b s = .ok p) :
+    parse (b ++ pad) s = .ok p ∧ parse (b.take (lengthField b)) s = .ok p := by
+  obtain ⟨h1, h2, h3, h4, as, hp, rfl⟩ := (parse_ok_iff b s p).1 h
+  constructor
+  · rw [parse_ok_iff, lengthField_append b pad (by omega)]
+    refine ⟨by simp; omega, h2, h3, by simp; omega, as, ?_, ?_⟩
+    · rw [List.take_append_of_le_length h4]; exact hp
+    · rw [getD_append_left b pad 0 (by omega), getD_append_left b pad 1 (by omega),
+        auth_append b pad h1]
+  · rw [parse_ok_iff, lengthField_take b _ (by omega) (by omega)]
+    refine ⟨by simp; omega, h2, h3, by simp; omega, as, ?_, ?_⟩
+    · rw [List.take_take, Nat.min_self]; exact hp
+    · rw [getD_take b 0 _ (by omega), getD_take b 1 _ (by omega), auth_take b _ h2]
+
+theorem parse_of_marshal (p : Packet) (w s : Bytes) (hm : marshal p = .ok w)
+    (hc : 0 ≤ p.code ∧ p.code ≤ 255) (ha : p.auth.length = 16) :
+    parse w s = .ok { code := p.code, id := p.id, auth := p.auth, secret := s,
+                      attrs := p.attrs.filter validType } := by
+  rw [marshal_eq] at hm
+  by_cases hcond : okLens p.attrs = true ∧ 20 + (encodeBytes p.attrs).length ≤ 4096
+  · rw [if_pos hcond] at hm
+    simp only [Res.ok.injEq] at hm
+    obtain ⟨hok, hsz⟩ := hcond
+    have hhl := header_length p.code p.id (20 + (encodeBytes p.attrs).length) p.auth
+    rw [ha] at hhl
+    have hwl : w.length = 20 + (encodeBytes p.attrs).length := by
+      rw [← hm, List.length_append, hhl]
+    have hlf : lengthField w = 20 + (encodeBytes p.attrs).length := by
+      rw [← hm]; exact lengthField_header _ _ _ _ _ (by omega)
+    rw [parse_ok_iff, hlf]
+    refine ⟨by omega, by omega, hsz, by omega, p.attrs.filter validType, ?_, ?_⟩
+    · rw [← hwl, List.take_length, ← hm, List.drop_left' hhl]
+      exact parseAttrs_encodeBytes _ hok
+    · rw [← hm]
+      have h0 : (header p.code p.id (20 + (encodeBytes p.attrs).length) p.auth ++
+          encodeBytes p.attrs).getD 0 0 = codeByte p.code := by simp [header]
+      have h1 : (header p.code p.id (20 + (encodeBytes p.attrs).length) p.auth ++
+          encodeBytes p.attrs).getD 1 0 = p.id := by simp [header]
+      have h4 : ((header p.code p.id (20 + (encodeBytes p.attrs).length) p.auth ++
+          encodeBytes p.attrs).drop 4).take 16 = p.auth := by
+        simp [header, ← ha]
+      rw [h0, h1, h4, codeByte_cast hc.1 hc.2]
+  · rw [if_neg hcond] at hm; cases hm
+
+theorem parse_accepts_iff_wf (b s : Bytes) :
+    (∃ p, parse b s = .ok p) ↔
+      20 ≤ b.length ∧ 20 ≤ lengthField b ∧ lengthField b ≤ 4096 ∧ lengthField b ≤ b.length ∧
+      WellFormedTLV ((b.take (lengthField b)).drop 20) := by
+  constructor
+  · rintro ⟨p, h⟩
+    obtain ⟨h1, h2, h3, h4, as, hp, _⟩ := (parse_ok_iff b s p).1 h
+    exact ⟨h1, h2, h3, h4, (parseAttrs_ok_iff_wf _).1 ⟨as, hp⟩⟩
+  · rintro ⟨h1, h2, h3, h4, hw⟩
+    obtain ⟨as, hp⟩ := (parseAttrs_ok_iff_wf _).2 hw
+    exact ⟨_, (parse_ok_iff b s _).2 ⟨h1, h2, h3, h4, as, hp, rfl⟩⟩
+
+/-- the encoder's acceptance condition, with the wire length spelled out -/
+def marshalCond (p : Packet) : Prop :=
+  (∀ a ∈ p.attrs, validType a = true → a.val.length ≤ 253) ∧
+    20 + ((p.attrs.filter validType).map (fun a => 2 + a.val.length)).sum ≤ 4096
+
+theorem marshalCond_iff (p : Packet) :
+    marshalCond p ↔ (okLens p.attrs = true ∧ 20 + (encodeBytes p.attrs).length ≤ 4096) := by
+  unfold marshalCond
+  rw [okLens_iff, encodeBytes_length]
+
+theorem marshal_ok_iff_cond (p : Packet) : (∃ w, marshal p = .ok w) ↔ marshalCond p := by
+  rw [marshalCond_iff, marshal_eq]
+  constructor
+  · rintro ⟨w, h⟩
+    by_cases hc : okLens p.attrs = true ∧ 20 + (encodeBytes p.attrs).length ≤ 4096
+    · exact hc
+    · rw [if_neg hc] at h; cases h
+  · intro hc
+    rw [if_pos hc]
+    exact ⟨_, rfl⟩
+
+theorem marshal_ne_fault (p : Packet) : marshal p ≠ .fault := by
+  rw [marshal_eq]
+  split <;> simp
+
+theorem marshal_err_of_not_cond (p : Packet) (h : ¬ marshalCond p) : marshal p = .err := by
+  rw [marshalCond_iff] at h
+  rw [marshal_eq, if_neg h]
+
+theorem marshal_length_cond (p : Packet) (w : Bytes) (hm : marshal p = .ok w)
+    (ha : p.auth.length = 16) :
+    w.length = 20 + ((p.attrs.filter validType).map (fun a => 2 + a.val.length)).sum ∧
+      lengthField w = w.length ∧ w.length ≤ 4096 := by
+  rw [← encodeBytes_length]
+  rw [marshal_eq] at hm
+  by_cases hcond : okLens p.attrs = true ∧ 20 + (encodeBytes p.attrs).length ≤ 4096
+  · rw [if_pos hcond] at hm
+    simp only [Res.ok.injEq] at hm
+    obtain ⟨hok, hsz⟩ := hcond
+    have hhl := header_length p.code p.id (20 + (encodeBytes p.attrs).length) p.auth
+    rw [ha] at hhl
+    have hwl : w.length = 20 + (encodeBytes p.attrs).length := by
+      rw [← hm, List.length_append, hhl]
+    have hlf : lengthField w = 20 + (encodeBytes p.attrs).length := by
+      rw [← hm]; exact lengthField_header _ _ _ _ _ (by omega)
+    exact ⟨hwl, by omega, by omega⟩
+  · rw [if_neg hcond] at hm; cases hm
+
 end RV
